@@ -14,7 +14,7 @@ func init() {
 		ID: "C19", Level: "exploration",
 		Rule: "E1/E2: 7 methods x {considered = known, subset} x valuesRange {observed, declared} x data {root, one criterion with a degenerate range, one strictly negative criterion} x start state {root, after each core bias} x " +
 			"anchoring alternatives {a; c; a+c(0.5); b(2)+a; a+b+c} x {ideal,nadir} x gain/loss {zero; linear; linear with offset; expFromZero; exp with alpha 0} x " +
-			"applier {inline; inline+notConsidered; inline bounded; newCriterion x 3 reference strategies; newCriterion bounded}. One real Anchoring.Apply per case. Oracle: reference point per criterion " +
+			"applier {inline; inline+notConsidered; inline with the flag omitted; inline bounded; newCriterion x 3 reference strategies; newCriterion bounded}. One real Anchoring.Apply per case. Oracle: reference point per criterion " +
 			"(coefficient-weighted best/worst, any tied value), mapped differences gain(d)/-loss(-d) with d scaled by the value range, inline: v' = bound(v + range*mean), reported difference = new-old for " +
 			"exactly the affected alternatives, zero functions = identity; newCriterion: one appended criterion per reference point with the reference criterion's type/range, value = mid + half * " +
 			"importance-weighted mean (exact on root states), bounded. distinct_nontrivial = distinct (start state, options) where a value changed or a criterion was added.",
@@ -304,6 +304,7 @@ func c19Run(s *Shard) {
 	appliers := []M{
 		{"function": "inline", "params": M{"applyOnNotConsidered": false}},
 		{"function": "inline", "params": M{"applyOnNotConsidered": true}},
+		{"function": "inline", "params": M{}}, // flag left out right after a request that set it: the documented default (false) must apply
 		{"function": "inline", "params": M{"applyOnNotConsidered": false, "allowedValuesRangeScaling": 1.0}},
 		{"function": "inline", "params": M{"applyOnNotConsidered": true, "allowedValuesRangeScaling": 0.5, "disallowNegativeValues": true}},
 		{"function": "newCriterion", "params": refStrategy(M{"randomSeed": 6}, 0)},
